@@ -410,12 +410,6 @@ def model_request(ob):
     for rc in rcs:
         toks.append("%d/%d/%s" % (kid(rc.keyname), kid(rc.name), ".".join(str(kid(o)) for o in rc.objects)))
     dtok = ",".join(str(kid(d)) for d in desc) if desc else "-"
-    positional = bool(rcs) and ((ordered and not tord and len(rcs) == len(desc)) or tord
-                                or (adhoc and len(rcs) == len(desc)))
-    if ob.get("adapted") is not None and not positional:
-        # _adapt_to_context after a by-name merge depends on dict iteration order of the keymap
-        # (MD_RESULT_MAP_INDEX != MD_INDEX); outside the model
-        return None, None
     if ob.get("adapted") is None:
         atok = "N"
     else:
@@ -433,6 +427,8 @@ def model_request(ob):
         except Exception as e:  # noqa: BLE001
             ans.append(classify_exc(e))
     impl = "K" + ".".join(str(kid(k)) for k in md._keys) + ";" + ",".join(ans)
+    if ob.get("adapted") is None:
+        impl += ";" + ",".join(ans)   # the model answers twice: declarative lookup and ordered dict
     return line, impl
 
 
